@@ -8,22 +8,32 @@ def hStr? (s : Sexp) : Option Handler.Str := (asBytes? s).map fun bs => bs.map f
 
 def hHex (s : Handler.Str) : String := bytesToHex (s.map fun c => UInt8.ofNat c.toNat)
 
+/-- a value: a decimal integer, or a string as `x<hex>` -/
+def hVal? (s : Sexp) : Option Val :=
+  match asInt? s with
+  | some i => some (.int i)
+  | none => (hStr? s).map .str
+
 def hBase? : Sexp → Option Base
   | list [atom "b", n, t, list sh, list dims, list data] => do
     pure { name := ← hStr? n, ty := ← hStr? t, shape := ← sh.mapM asNat?, dims := ← dims.mapM hStr?,
-           data := ← data.mapM asInt?, kind := .arr }
+           data := ← data.mapM hVal?, kind := .arr }
   | _ => none
+
+def hMember? : Sexp → Option Member
+  | list [atom "st", n, list bs] => do pure (.struct (← hStr? n) (← bs.mapM hBase?))
+  | s => (hBase? s).map .base
 
 def hCol? : Sexp → Option (Handler.Str × Handler.Str)
   | list [n, t] => do pure (← hStr? n, ← hStr? t)
   | _ => none
 
-def hRow? : Sexp → Option (List Int)
-  | list r => r.mapM asInt?
+def hRow? : Sexp → Option (List Val)
+  | list r => r.mapM hVal?
   | _ => none
 
 def hVar? : Sexp → Option Var
-  | list [atom "st", n, list ms] => do pure (.struct (← hStr? n) (← ms.mapM hBase?))
+  | list [atom "st", n, list ms] => do pure (.struct (← hStr? n) (← ms.mapM hMember?))
   | list [atom "g", n, a, list ms] => do pure (.grid (← hStr? n) (← hBase? a) (← ms.mapM hBase?))
   | list [atom "sq", n, list cols, list rows] => do pure (.seq (← hStr? n) (← cols.mapM hCol?) (← rows.mapM hRow?))
   | s => (hBase? s).map .base
@@ -57,6 +67,11 @@ def hProjItem : ProjItem → Sexp
 def handleHandler : List Sexp → Option String
   | [atom "h-handle", ds, p, q] => do
     pure (hOutcome (handle intText (← hDataset? ds) (← hStr? p) (← hStr? q)))
+  | [atom "h-exc", ds, p, q] => do
+    -- which exception class (constructor of `Exc`) the guarded region raises for this request
+    match guarded (← hDataset? ds) (← hStr? p) (← hStr? q) with
+    | .ok (k, _) => pure ("ok:" ++ hKind k)
+    | .error e => pure ("err:" ++ hExc e)
   | [atom "h-pinned", ds, p, q] => do
     pure (hOutcome (handlePinned intText (← hDataset? ds) (← hStr? p) (← hStr? q)))
   | [atom "h-parsece", q] => do
